@@ -381,8 +381,11 @@ int main(int argc, char** argv) {
     std::vector<RI> wide; for (auto& r : IV) if (!r.empty() && r.ub - r.lb >= 1e-9) wide.push_back(r);
     std::vector<double> req = PT; req.push_back(-1e3); req.push_back(1e3); req.push_back(-999.5); req.push_back(999.5);
     size_t nw = wide.size(), np = req.size();
-    R.space("auto-parameter:" + tg, (uint64_t)nw * 2 * np, [=](uint64_t idx, vf::Case& c) {
-      const RI& r = wide[idx / (2 * np)]; double prec = precs[(idx / np) % 2]; double rq = req[idx % np];
+    // boundary precisions: the default, a coarse one, and two below the spacing of doubles at the bounds (0 and 1e-17), for which "one
+    // precision step inside an open bound" is the bound itself and the parameter has to fall back on its own smallest step
+    static const double aprecs[4] = {1e-12, 1e-3, 0, 1e-17};
+    R.space("auto-parameter:" + tg + ":precisions{1e-12,1e-3,0,1e-17}", (uint64_t)nw * 4 * np, [=](uint64_t idx, vf::Case& c) {
+      const RI& r = wide[idx / (4 * np)]; double prec = aprecs[(idx / np) % 4]; double rq = req[idx % np];
       // "one precision step inside an open bound" must itself be an accepted value for the clause to have a referent: with an open end the
       // interval has to be wider than two precision steps (the quantifier's 'at least 1e-9 wide' is stated for the default precision 1e-12)
       if ((!r.il || !r.iu) && !(r.ub - r.lb > 2 * prec)) { c.tag("auto:outside-quantifier(open-interval-not-wider-than-two-precision-steps)"); return; }
